@@ -81,7 +81,42 @@ def gen_lying_case(rng, i):
     return ops, False
 
 
+def gen_bos_case(rng, i):
+    """links opened by several beginning-of-stream pages (multiplexed streams, some of them not Vorbis), with such pages duplicated, given each other's
+    serial number or swapped — the open-time bookkeeping of serial numbers on its refusal paths; opened seekable and streaming"""
+    ops = ["case %d" % i]
+    nl = rng.choice([1, 2, 3])
+    nbos = 0
+    for k in range(nl):
+        ops.append(V.gen_links(rng, 1, tiny=True)[0])
+        nbos += 1
+        for _ in range(rng.choice([0, 1, 1, 2])):
+            ops.append("mux " + V.gen_links(rng, 1, tiny=True)[0][5:])
+            nbos += 1
+    for _ in range(rng.choice([1, 1, 2, 3])):
+        b = rng.randrange(nbos)
+        k = rng.choice([121, 107, 107, 109, 108, 121])
+        if k == 121:
+            ops.append("pagedamage 121 %d 0 0" % b)
+            if rng.random() < 0.7:
+                ops.append("pagedamage 107 %d 0 0" % b)
+        elif k == 109:
+            ops.append("pagedamage 109 %d 0 %d" % (b, rng.choice([1000 + rng.randrange(5), 500000 + rng.randrange(5), 424242])))
+        else:
+            ops.append("pagedamage %d %d %d 0" % (k, b, rng.randrange(nbos)))
+    for sl in (0, 1):
+        ops.append("%s %d %d %d" % (rng.choice(["open", "open", "test"]), sl, 1 - sl if rng.random() < 0.8 else sl, rng.choice([4096, 1, 513, 100000])))
+        if ops[-1].startswith("test"):
+            ops.append("testopen %d" % sl)
+    for _ in range(rng.randint(2, 10)):
+        ops.append(rand_call(rng, rng.randrange(2), 2))
+    ops += ["clear 0", "clear 1"]
+    return ops, False
+
+
 def gen_case(rng, i, tier, setups):
+    if i % 12 == 9 or i % 12 == 2:
+        return gen_bos_case(rng, i)
     if i % 12 == 5:
         return gen_gap_case(rng, i)
     if i % 12 == 7:
